@@ -76,6 +76,10 @@ func prepare() error {
 		}
 		mod := filepath.Join(workRoot, "mod")
 		os.MkdirAll(filepath.Join(mod, "customenc"), 0o755)
+		for _, name := range customLibNames {
+			os.MkdirAll(filepath.Join(mod, name), 0o755)
+			os.WriteFile(filepath.Join(mod, name, "enc.go"), []byte(strings.Replace(customEnc, "package customenc", "package "+name, 1)), 0o644)
+		}
 		os.WriteFile(filepath.Join(mod, "go.mod"), []byte("module c17scratch\n\ngo 1.19\n\nrequire (\n\tgoogle.golang.org/protobuf v1.27.1\n\tstorj.io/drpc v0.0.0\n)\n\nreplace storj.io/drpc => "+repoDir()+"\n"), 0o644)
 		sum, _ := os.ReadFile(filepath.Join(repoDir(), "go.sum"))
 		os.WriteFile(filepath.Join(mod, "go.sum"), sum, 0o644)
@@ -83,6 +87,10 @@ func prepare() error {
 	})
 	return prepErr
 }
+
+// customLibNames: the same user supplied protolib under package names that the generated encoding
+// methods use themselves for parameters and variables.
+var customLibNames = []string{"msg", "buf", "pbuf", "err", "proto", "drpc"}
 
 const customEnc = `// Package customenc is a user supplied protolib for the "custom" option.
 package customenc
@@ -126,8 +134,8 @@ type fileSpec struct {
 	// ExtPkg, if set, adds a second proto file whose message Note lives in another Go package whose
 	// import path ends in this name (e.g. "context", "drpc"); methods may use ".ext.Note". Such
 	// descriptors are checked for compilation and vet only.
-	ExtPkg string
-	Protolib string   // "", "custom"
+	ExtPkg   string
+	Protolib string // "", "custom"
 	JSON     bool
 	GoPkg    string
 }
@@ -223,12 +231,12 @@ func collisionSpec() fileSpec {
 func clashSpecs() map[string]fileSpec {
 	req := []string{"Req"}
 	return map[string]fileSpec{
-		"method-DRPCConn": {Pkg: "a", Msgs: req, Services: []svcSpec{{Name: "Svc", Methods: []methodSpec{{Name: "DRPCConn", In: "Req", Out: "Req"}, {Name: "Get", In: "Req", Out: "Req"}}}}},
-		"methods-get_item-GetItem": {Pkg: "a", Msgs: req, Services: []svcSpec{{Name: "Svc", Methods: []methodSpec{{Name: "get_item", In: "Req", Out: "Req"}, {Name: "GetItem", SS: true, In: "Req", Out: "Req"}}}}},
-		"services-my_service-MyService": {Pkg: "a", Msgs: req, Services: []svcSpec{{Name: "my_service", Methods: []methodSpec{{Name: "Get", In: "Req", Out: "Req"}}}, {Name: "MyService", Methods: []methodSpec{{Name: "Put", In: "Req", Out: "Req"}}}}},
-		"services-Foo-FooUnimplemented": {Pkg: "a", JSON: true, Msgs: req, Services: []svcSpec{{Name: "Foo", Methods: []methodSpec{{Name: "Get", In: "Req", Out: "Req"}}}, {Name: "FooUnimplemented", Methods: []methodSpec{{Name: "Put", CS: true, In: "Req", Out: "Req"}}}}},
+		"method-DRPCConn":                       {Pkg: "a", Msgs: req, Services: []svcSpec{{Name: "Svc", Methods: []methodSpec{{Name: "DRPCConn", In: "Req", Out: "Req"}, {Name: "Get", In: "Req", Out: "Req"}}}}},
+		"methods-get_item-GetItem":              {Pkg: "a", Msgs: req, Services: []svcSpec{{Name: "Svc", Methods: []methodSpec{{Name: "get_item", In: "Req", Out: "Req"}, {Name: "GetItem", SS: true, In: "Req", Out: "Req"}}}}},
+		"services-my_service-MyService":         {Pkg: "a", Msgs: req, Services: []svcSpec{{Name: "my_service", Methods: []methodSpec{{Name: "Get", In: "Req", Out: "Req"}}}, {Name: "MyService", Methods: []methodSpec{{Name: "Put", In: "Req", Out: "Req"}}}}},
+		"services-Foo-FooUnimplemented":         {Pkg: "a", JSON: true, Msgs: req, Services: []svcSpec{{Name: "Foo", Methods: []methodSpec{{Name: "Get", In: "Req", Out: "Req"}}}, {Name: "FooUnimplemented", Methods: []methodSpec{{Name: "Put", CS: true, In: "Req", Out: "Req"}}}}},
 		"service-Foo-vs-service-FooDescription": {Pkg: "a", Msgs: req, Services: []svcSpec{{Name: "Foo", Methods: []methodSpec{{Name: "Get", In: "Req", Out: "Req"}}}, {Name: "FooDescription", Methods: []methodSpec{{Name: "Put", In: "Req", Out: "Req"}}}}},
-		"service-named-like-a-message": {Pkg: "a", Msgs: []string{"Req", "DRPCFooClient"}, Services: []svcSpec{{Name: "Foo", Methods: []methodSpec{{Name: "Get", In: "Req", Out: "DRPCFooClient"}}}}},
+		"service-named-like-a-message":          {Pkg: "a", Msgs: []string{"Req", "DRPCFooClient"}, Services: []svcSpec{{Name: "Foo", Methods: []methodSpec{{Name: "Get", In: "Req", Out: "DRPCFooClient"}}}}},
 	}
 }
 
@@ -252,7 +260,7 @@ func shiftSpecs() []fileSpec {
 func foreignPkgSpecs() []fileSpec {
 	var out []fileSpec
 	// c, x, in, ctx, srv, in1, in2, out, m, err, stream, s, mux, impl, cc: names of receivers, parameters and locals of the generated functions
-	for _, name := range []string{"context", "drpc", "errors", "drpcerr", "msgs", "c", "x", "in", "ctx", "srv", "in1", "in2", "out", "m", "err", "stream", "s", "mux", "impl", "cc", "io"} {
+	for _, name := range []string{"context", "drpc", "errors", "drpcerr", "msgs", "c", "x", "in", "ctx", "srv", "in1", "in2", "out", "m", "err", "stream", "s", "mux", "impl", "cc", "io", "n", "d", "enc", "ok"} {
 		for _, first := range []bool{true, false} {
 			svc := svcSpec{Name: "Svc"}
 			ms := []methodSpec{
@@ -324,7 +332,9 @@ func buildRequest(f fileSpec, idx int) *pluginpb.CodeGeneratorRequest {
 	}
 	param := ""
 	var ps []string
-	if f.Protolib == "custom" {
+	if strings.HasPrefix(f.Protolib, "custom:") {
+		ps = append(ps, "protolib=c17scratch/"+strings.TrimPrefix(f.Protolib, "custom:"))
+	} else if f.Protolib == "custom" {
 		ps = append(ps, "protolib=c17scratch/customenc")
 	}
 	if !f.JSON {
@@ -644,6 +654,13 @@ func checkSpec(id string, f fileSpec, idx int, seed uint64) runner.Result {
 	return res
 }
 
+func b2i(b bool) int {
+	if b {
+		return 1
+	}
+	return 0
+}
+
 func firstLine(s string) string {
 	if i := strings.IndexByte(s, '\n'); i > 0 {
 		return s[:i]
@@ -669,6 +686,17 @@ func gen(tier string, seed uint64) []runner.Scenario {
 		name, f, idx := name, f, 3000+len(out)
 		id := "fixed/clash-" + name
 		out = append(out, runner.Scenario{ID: id, Run: func() runner.Result { return checkSpec(id, f, idx, seed) }})
+	}
+	for k, name := range customLibNames {
+		k, name := k, name
+		for _, json := range []bool{false, true} {
+			json := json
+			f := fileSpec{Pkg: "a", JSON: json, Protolib: "custom:" + name, Msgs: []string{"Req"}, Services: []svcSpec{{Name: "Svc", Methods: []methodSpec{
+				{Name: "U", In: "Req", Out: "Req"}, {Name: "B", CS: true, SS: true, In: "Req", Out: "Req"}}}}}
+			id := fmt.Sprintf("fixed/protolib-package-%s-json=%v", name, json)
+			idx := 4000 + 2*k + b2i(json)
+			out = append(out, runner.Scenario{ID: id, Run: func() runner.Result { return checkSpec(id, f, idx, seed) }})
+		}
 	}
 	for k, f := range foreignPkgSpecs() {
 		k, f := k, f
